@@ -63,6 +63,7 @@ type faultReader struct {
 	err     error // what the failing Read returns (nil = errSource)
 	withDat bool  // the failing Read delivers the last bytes before pos together with the error
 	cancel  context.CancelFunc
+	onPos   func() // called once when the source reaches the fault position (fault "conn-break")
 	linger  time.Duration // how long the source stalls right after the cancellation (whatever reacts to it asynchronously gets its chance)
 	fired   *atomic.Int64
 }
@@ -92,6 +93,14 @@ func (f *faultReader) Read(p []byte) (int, error) {
 		f.fired.Add(1)
 		return 0, f.err
 	}
+	if f.onPos != nil && f.off >= f.pos {
+		f.fired.Add(1)
+		f.onPos()
+		f.onPos = nil
+		if f.linger > 0 {
+			time.Sleep(f.linger)
+		}
+	}
 	if f.cancel != nil && f.off >= f.pos {
 		f.fired.Add(1)
 		f.cancel()
@@ -113,7 +122,7 @@ func (f *faultReader) Read(p []byte) (int, error) {
 	if rem := len(f.b) - f.off; n > rem {
 		n = rem
 	}
-	if (f.fail || f.cancel != nil) && f.off < f.pos && f.off+n > f.pos {
+	if (f.fail || f.cancel != nil || f.onPos != nil) && f.off < f.pos && f.off+n > f.pos {
 		n = f.pos - f.off
 	}
 	copy(p, f.b[f.off:f.off+n])
@@ -271,6 +280,11 @@ func ExecC10(fc FaultCase) *ev.Result {
 	switch fc.Fault {
 	case "reader-error":
 		fr.fail, fr.err, fr.withDat = true, sourceError(fc.SrcErr), fc.SrcData
+	case "conn-break":
+		// the connection to the server breaks in the middle of the upload (the server drops all its
+		// connections); the client is left with a dead connection
+		fr.onPos = func() { w.ext.breakFn() }
+		fr.linger = time.Duration(fc.Linger) * time.Millisecond
 	case "cancel":
 		fr.cancel = cancel
 		fr.linger = time.Duration(fc.Linger) * time.Millisecond
@@ -360,6 +374,17 @@ func ExecC10(fc FaultCase) *ev.Result {
 	if c.External || fc.Client == "handler" {
 		waitHooksQuiet()
 	}
+	if fc.Fault == "conn-break" && fired.Load() > 0 {
+		// the server is started again on the same directories; a new client reads
+		if tx != nil {
+			r.Failf("harness: conn-break inside a transaction is not generated")
+			return r
+		}
+		if err := w.Reopen(); err != nil {
+			r.Failf("restarting the server after the connection broke failed: %v", err)
+			return r
+		}
+	}
 
 	// ---- oracle ----
 	didFire := fired.Load() > 0
@@ -374,7 +399,7 @@ func ExecC10(fc FaultCase) *ev.Result {
 	switch {
 	case !didFire:
 		mustSucceed = true
-	case fc.Fault == "reader-error" || fc.Fault == "recv-error":
+	case fc.Fault == "reader-error" || fc.Fault == "recv-error" || fc.Fault == "conn-break":
 		mustFail = true // an incomplete source can never be reported as a completed write
 	case fc.Fault == "enospc":
 		// must succeed iff some healthy root reports more free space than every faulty root
